@@ -66,6 +66,9 @@ def alphabet():
         ("rel", "D", "start", None, (a1, None, a9, None)),
         # a relation whose identifier is also the name of an undeclared endpoint (e3)
         ("rel", "D", "usage", e3, (a1, e1, None)),
+        # self-loops whose two roles imply DIFFERENT kinds, on names that may be undeclared (one node, one loop)
+        ("rel", "D", "attribution", None, (e3, e3)),
+        ("rel", "D", "usage", None, (a9, a9, None)),
     ]
 
 
